@@ -70,6 +70,23 @@ def run_dumpload(ctx):
             ctx.sample({"mode": mode, "classes": classes_in(recs[0]["orig"]), "dump_ok": recs[0]["dumped"]["ok"], "load_ok": recs[0]["loaded"]["ok"]})
 
 
+def run_import_race(ctx):
+    """C07: load() while the module of the class is still being imported by another thread's load() (gate inside the
+    module body): both threads get the bean."""
+    of, d = ctx.path("importrace.json"), ctx.path("slowmods")
+    common.run_py(os.path.join(VERIF, "harness", "importrace_run.py"), ["run", of, ctx.seed, 6 if ctx.tier == "quick" else 60, d])
+    recs = json.load(open(of))
+    fails, _ = casejudge.judge(ctx, "ImportRaceJudge", of, "ImportRaceJudge.cfg")
+    for i, r in enumerate(recs, 1):
+        ctx.cov["evaluations"] += 1
+        ctx._distinct.add("importrace:%d" % i)
+        for name in sorted(fails.get(i, ())):
+            ctx.violation("%s:module-path" % name, "%s: two concurrent load() calls of a module-qualified bean whose module was being imported: "
+                          "first thread %s, second thread %s" % (name, r["t1"], r["t2"]), {"kind": "history", "case": r})
+        if not fails.get(i):
+            ctx.cov["traces_validated_against_impl"] += 1
+
+
 def run_names(ctx):
     quick = ctx.tier == "quick"
     words = casejudge.enumerate_cases(ctx, "MC_JsonClassNames", "MC_JsonClassNames_%d.cfg" % (3 if quick else 4), workers=8)
@@ -122,6 +139,8 @@ def run(ctx):
         ctx.assumptions += ["field values that coincide with an ignored name are not generated (the code drops such fields)",
                             "mangled slot names are outside the supported shapes (documented by the test-suite)"]
         run_dumpload(ctx)
+        if ctx.prop == "C07":
+            run_import_race(ctx)
 
 
 def replay(ctx, path):
